@@ -509,8 +509,41 @@ static int replay_C18(const Args& a)
       auto* one = lex.make_literal(i, u8"1");
       const Expr* es[] = { lex.make_alignof(*one), lex.make_demotion(*one, i), lex.make_materialization(*one, i), lex.make_rewrite(*one, *one), lex.make_eclipsis(i),
                            lex.make_restriction(*one), lex.make_binary_fold(Category_code::Plus, *one, *one), lex.make_where(*one, *one), lex.make_requires(*unit.global_region(), Mapping_level{1}),
-                           lex.make_lambda(*unit.global_region(), Mapping_level{1}) };
+                           lex.make_lambda(*unit.global_region(), Mapping_level{1}),
+                           lex.make_static_assert(*one, { }), lex.make_asm(lex.get_string(u8"nop")), lex.make_using_directive(unit.global_region()->bindings(), lex.namespace_type()), lex.make_pragma(),
+                           lex.make_phased_evaluation(*one, Phases::Elaboration) };
       for (auto* e : es) { print(*e, out, fl, ind); CLAUSE(true, "printing an unsupported expression kind completes or raises std::logic_error"); }
+      for (auto* e : es) { std::ostringstream os; Printer pp { lex, os }; try { pp << xpr_stmt(*e); } catch (const std::logic_error&) { } CLAUSE(true, "printing it as a statement completes or raises std::logic_error"); }
+      const Type* ts[] = { &lex.get_decltype(*one), &lex.get_pointer(i), &lex.get_as_type(*one), &lex.get_qualified(lex.const_qualifier(), i), &lex.get_array(i, *one) };
+      for (auto* t : ts) { std::ostringstream os; Printer pp { lex, os }; try { pp << xpr_type(*t); } catch (const std::logic_error&) { } CLAUSE(true, "printing a type completes or raises std::logic_error"); }
+   }
+   if (want("bytes")) {
+      bool flags_ok = true, dec_ok = true;
+      for (int b = 1; b < 256; ++b) {
+         const char8_t bytes[] = { u8'a', char8_t(b), u8'z', 0 };
+         std::ostringstream os; Printer pp { lex, os }; auto f0 = os.flags();
+         pp << xpr_expr(*lex.make_literal(i, bytes)); pp << Decl_position{255}; pp << Mapping_level{4096};
+         flags_ok = flags_ok && os.flags() == f0;
+         auto s = os.str(); dec_ok = dec_ok && s.size() >= 7 && s.substr(s.size() - 7) == "2554096";
+      }
+      CLAUSE(flags_ok, "printing a literal containing any byte value leaves the stream's formatting flags untouched");
+      CLAUSE(dec_ok, "numbers written after any such literal are decimal");
+   }
+   if (want("indentation")) {
+      auto* one = lex.make_literal(i, u8"1"); auto& lbl = lex.get_label(lex.get_identifier(u8"again"));
+      auto* es = lex.make_expr_stmt(*one);
+      auto* w = lex.make_while(); w->control = one; w->stmt = es;
+      auto* d = lex.make_do(); d->control = one; d->stmt = es;
+      auto* f = lex.make_for(); f->init = one; f->cond = one; f->inc = one; f->stmt = es;
+      auto* blk = lex.make_block(*unit.global_region()); blk->add_stmt(*es); blk->new_handler(lex.get_identifier(u8"e"), i)->body().add_stmt(*es);
+      const Expr* ss[] = { es, lex.make_labeled_stmt(lbl, *es), lex.make_if(*one, *es), lex.make_if(*one, *es, *es), w, d, f, lex.make_return(*one), lex.make_goto(lbl), lex.make_break(), lex.make_continue(), blk,
+                           lex.make_labeled_stmt(lbl, *lex.make_labeled_stmt(lbl, *blk)) };
+      for (auto* st : ss) for (int start : { 0, 3, 9 }) {
+         std::ostringstream os; Printer pp { lex, os }; pp.indent(start); int before = pp.indent();
+         try { pp << xpr_stmt(*st); } catch (const std::logic_error&) { }
+         bool ctl = false; for (unsigned char ch : os.str()) if (ch < 0x20 && ch != '\n') ctl = true;
+         CLAUSE(pp.indent() == before && !ctl, "after a complete top-level statement the indentation is back where it started; no control byte written");
+      }
    }
    return fails;
 }
